@@ -143,23 +143,23 @@ def check_index_spaces(chk, tus, it, tabs):
     chk.expect(re.search(r'f4\(i,\s*l0,\s*l1\)', fns.get('mod_third', '')) is not None and
                re.search(r'return\s+wasi_snapshot_preview1__fd_write\(i,\s*l0\)', fns.get('mod_writer', '')) is not None,
                'R04.2', 'export-wrappers', 'export wrappers forward to %r / %r' % (fns.get('mod_third'), fns.get('mod_writer')), site + ':exports')
-    stores = re.findall(r'data\[offset\s*\+\s*(\d+)\]\s*=\s*\(wasmFunc\)\s*&(\w+)', fns.get('modInitTables', ''))
-    chk.expect(stores == [('0', 'f4'), ('1', 'wasi_snapshot_preview1__fd_write'), ('2', 'f2')], 'R04.4', 'element-identifiers',
-               'element segment [4,1,2] stores %r' % (stores,), site + ':elements')
+    stores = [(k, f) for _, k, f in c06.element_stores(fns.get('modInitTables', ''))]
+    chk.expect(stores == [(1, 'f4'), (2, 'wasi_snapshot_preview1__fd_write'), (3, 'f2')], 'R04.4', 'element-identifiers',
+               'element segment [4,1,2] at offset 1 stores (entry, function) = %r' % (stores,), site + ':elements')
     chk.expect(re.search(r'\bf2\(i\);', fns.get('modInstantiate', '')) is not None, 'R04.2', 'start-identifier',
                'start function 2 is called as %r' % fns.get('modInstantiate', '')[-60:], site + ':start')
     # the element stores must actually run at instantiation, for a defined and for an imported table
     for table, pretty in (('defined', 0), ('imported', 0), ('defined', 1), ('imported', 1)):
         fns_t = c06.split_functions(c06.inits_text(it2, c06.shape(it2, mem='none', table=table, nglobals=0, gimports=0, data=(), elems=1, start=False),
                                                    pretty=pretty))
-        n_stores = len(re.findall(r'data\[offset\s*\+\s*\d+\]\s*=\s*\(wasmFunc\)', fns_t.get('modInitTables', '')))
+        tgt = c06.element_stores(fns_t.get('modInitTables', ''))
+        n_stores = len(tgt)
         called = re.search(r'\bmodInitTables\s*\(', fns_t.get('modInstantiate', '')) is not None
-        tgt = re.findall(r'(\S+)\.data\[offset\s*\+\s*(\d+)\]\s*=\s*\(wasmFunc\)\s*&?(\w+)', fns_t.get('modInitTables', ''))
         want_t = '(*i->env__table)' if table == 'imported' else 'i->t0'
-        chk.expect([(a, int(b), c_) for a, b, c_ in tgt] == [(want_t, 0, 'f1'), (want_t, 1, 'env__imp0'), (want_t, 2, 'f3')], 'R04.4',
+        chk.expect(tgt == [(want_t, 2, 'f1'), (want_t, 3, 'env__imp0'), (want_t, 4, 'f3')], 'R04.4',
                    'element-target:%s%s' % (table, ',pretty' if pretty else ''),
-                   'element segment [1,0,3] of table 0 (%s) is stored as %r; expected entries offset+0..2 of %s holding f1, env__imp0, f3'
-                   % (table, tgt, want_t), 'wasmCWriteInitTables:element-target')
+                   'element segment [1,0,3] at offset 2 of table 0 (%s) is stored as (table, entry, function) = %r; expected entries 2..4 of %s '
+                   'holding f1, env__imp0, f3' % (table, tgt, want_t), 'wasmCWriteInitTables:element-target')
         chk.expect(n_stores == 3 and called, 'R04.4', 'element-stores-run:%s%s' % (table, ',pretty' if pretty else ''),
                    'module with a %s table and one element segment of 3 functions: InitTables contains %d stores and Instantiate %s it - '
                    'call_indirect through an initialised entry would reach whatever the table held before'
@@ -169,10 +169,25 @@ def check_index_spaces(chk, tus, it, tabs):
                           table_imports=[('env', 'table', 4, 8, False)],
                           element_segments=[(0, M.i32_const(1), [1]), (1, M.i32_const(2), [2, 0])])
     body2 = c06.split_functions(c06.inits_text(it2, mk2)).get('modInitTables', '')
-    tgt2 = [(a, c_) for a, b, c_ in re.findall(r'(\S+)\.data\[offset\s*\+\s*(\d+)\]\s*=\s*\(wasmFunc\)\s*&?(\w+)', body2)]
-    chk.expect(tgt2 == [('(*i->env__table)', 'f1'), ('i->t1', 'f2'), ('i->t1', 'env__imp0')], 'R04.4', 'element-target:mixed',
-               'with an imported table 0 and a defined table 1, segments (table 0: [f1]) and (table 1: [f2, imp0]) are stored as %r' % (tgt2,),
+    tgt2 = c06.element_stores(body2)
+    chk.expect(tgt2 == [('(*i->env__table)', 1, 'f1'), ('i->t1', 2, 'f2'), ('i->t1', 3, 'env__imp0')], 'R04.4', 'element-target:mixed',
+               'with an imported table 0 and a defined table 1, segments (table 0 at 1: [f1]) and (table 1 at 2: [f2, imp0]) are stored as '
+               '(table, entry, function) = %r' % (tgt2,),
                'wasmCWriteInitTables:element-target')
+    # constant and global offsets mixed, in both orders: every segment starts from its own offset, whatever the one before it was
+    mk3 = lambda: M.build(it2, types=[([], [])], func_imports=[('env', 'imp0', 0)], functions=[0, 0], tables=[(8, 8, False)],
+                          global_imports=[('env', 'base', 'i32', False)],
+                          element_segments=[(0, M.i32_const(2), [1]), (0, M.global_get(0), [0, 2]), (0, M.i32_const(1), [1]),
+                                            (0, M.global_get(0), [2])])
+    for pretty in (0, 1):
+        body3 = c06.split_functions(c06.inits_text(it2, mk3, pretty=pretty)).get('modInitTables', '')
+        tgt3 = [(t, (re.sub(r'[\s()]', '', k[0]), k[1]) if isinstance(k, tuple) else k, f) for t, k, f in c06.element_stores(body3)]
+        g = '*i->env__base'
+        want3 = [('i->t0', 2, 'f1'), ('i->t0', (g, 0), 'env__imp0'), ('i->t0', (g, 1), 'f2'), ('i->t0', 1, 'f1'), ('i->t0', (g, 0), 'f2')]
+        chk.expect(tgt3 == want3, 'R04.4', 'element-target:mixed-offsets%s' % (',pretty' if pretty else ''),
+                   'segments at (i32.const 2: [f1]), (global.get base: [imp0, f2]), (i32.const 1: [f1]), (global.get base: [f2]) are stored as '
+                   '(table, entry, function) = %r; expected %r - an entry is the segment\'s own offset plus the position in the segment'
+                   % (tgt3, want3), 'wasmCWriteInitTables:element-target')
     # the import spelling must be the symbol the WASI host library actually defines
     from .. import wasi as W
     wtu = W.wasi_tu()
